@@ -399,7 +399,9 @@ def _attribute(prop, desc):
     code (overflow, bounds, panics) belong to every property of the group."""
     m = re.match(r'^((?:C\d\d,?)+):', desc)
     if m:
-        return prop in m.group(1).split(',')
+        from . import registry
+        mine = [prop] + registry.PROPS.get(prop, {}).get('also_counts', [])
+        return any(q in m.group(1).split(',') for q in mine)
     return True
 
 
